@@ -86,8 +86,8 @@ func chain3With(c *hlib.Ctx, g mesh3, firstOp int) {
 		if r.skipped {
 			continue
 		}
-		if timeouts[r.kind] >= 3 {
-			c.Stat("not-run-after-3-timeouts:"+r.kind, 1)
+		if timeouts[r.kind] >= 1 {
+			c.Stat("not-run-after-a-timeout:"+r.kind, 1)
 			continue
 		}
 		c.Stat("op:"+r.kind, 1)
@@ -286,8 +286,8 @@ func runChain2(c *hlib.Ctx, g mesh2, nops int, forced []int) {
 				coords, exact, flat = true, st.exact, st.flat
 			}
 		}
-		if timeouts[kind] >= 3 {
-			c.Stat("not-run-after-3-timeouts:"+kind, 1)
+		if timeouts[kind] >= 1 {
+			c.Stat("not-run-after-a-timeout:"+kind, 1)
 			continue
 		}
 		c.Stat("op:"+kind, 1)
